@@ -895,6 +895,17 @@ impl Property for P14 {
                 }
             }
         }
+        // (i) the default limit itself: a payload of exactly 512 KiB passes the writer and the reader, one byte more is
+        // refused by the writer (nothing reaches the sink, the next value is unaffected) and, hand-framed, by the reader
+        let exact = WKind::Val(bytes_spec_with_encoding_len(DEFAULT_MAX_LEN));
+        let over = WKind::Val(bytes_spec_with_encoding_len(DEFAULT_MAX_LEN + 1));
+        let small = WKind::Val(ValSpec { ty: Ty::Bytes, size: 3, seed: 7 });
+        for g in [u32::MAX, 65_536, 100_000] {
+            let lane = if g == u32::MAX { vec![] } else { vec![Step::Xfer(g); 12] };
+            out.push(C14 { r_src: lane.clone(), w_sink: lane.clone(), ..base(Ty::Bytes, vec![small.clone(), exact.clone(), small.clone()]) });
+            out.push(C14 { w_sink: lane.clone(), ..base(Ty::Bytes, vec![small.clone(), over.clone(), small.clone()]) });
+            out.push(C14 { r_src: lane, ..base(Ty::Bytes, vec![small.clone(), WKind::Raw { declared: DEFAULT_MAX_LEN as u32 + 1, body: vec![0x40; 64] }]) });
+        }
         out
     }
 
